@@ -41,6 +41,19 @@ macro_rules! ensure {
     };
 }
 
+/// Like `ensure!`, but only for oracles after whose failure the reference model can simply carry on: when the
+/// property the oracle belongs to is not among the properties being decided, the failure is NOT turned into
+/// a violation that cuts the path (it would hide what the selected property's own probes can see further
+/// down that path); the oracle's own check reports it.
+#[macro_export]
+macro_rules! ensure_soft {
+    ($sc:expr, $cond:expr, $prop:expr, $oracle:expr, $($fmt:tt)*) => {
+        if !($cond) && $sc.want_any($prop) {
+            return $crate::vio!($prop, $oracle, $($fmt)*);
+        }
+    };
+}
+
 pub fn panic_msg(p: &Box<dyn std::any::Any + Send>) -> String {
     if let Some(s) = p.downcast_ref::<&str>() {
         s.to_string()
@@ -122,6 +135,10 @@ impl Scenario {
     pub fn want(&self, prop: &str) -> bool {
         self.props.iter().any(|p| p == prop)
     }
+    /// `tags` = comma separated property ids
+    pub fn want_any(&self, tags: &str) -> bool {
+        tags.split(',').any(|t| self.want(t))
+    }
 }
 
 #[derive(Clone, Debug, PartialEq, Eq, Hash, Serialize, Deserialize)]
@@ -146,13 +163,15 @@ pub enum Op {
     FaultIterDestroyDrop { w: u8, a: u8, k: u8 },
     /// Drop world w; the k-th tracked Drop panics (k = 0: plain drop, no fault).
     DropWorld { w: u8, k: u8 },
+    /// create / create_within_capacity with a user value whose `Into<Components>` conversion panics.
+    FaultCreateInto { w: u8, a: u8, via: Via, within: bool },
 }
 
 impl Op {
     pub fn is_fault(&self) -> bool {
         matches!(
             self,
-            Op::FaultQuery { .. } | Op::FaultClone { .. } | Op::FaultDestroyDrop { .. } | Op::FaultIterDestroyDrop { .. } | Op::DropWorld { .. }
+            Op::FaultQuery { .. } | Op::FaultClone { .. } | Op::FaultDestroyDrop { .. } | Op::FaultIterDestroyDrop { .. } | Op::DropWorld { .. } | Op::FaultCreateInto { .. }
         )
     }
 }
@@ -519,6 +538,11 @@ impl Sys {
             if self.faults_used < sc.max_faults {
                 for &a in &sc.archs {
                     let n = m.order[a as usize].len();
+                    for via in [Via::World, Via::Arch] {
+                        for within in [false, true] {
+                            out.push(Op::FaultCreateInto { w: wu, a, via, within });
+                        }
+                    }
                     for mac in 0..6u8 {
                         // 5 = runtime borrow conflict (also tried on an empty archetype, where it must NOT panic)
                         let kmax = if mac == 5 { 1 } else if mac < 2 { n.min(1) } else { n };
@@ -677,6 +701,9 @@ impl Sys {
     // -----------------------------------------------------------------------------------------
 
     pub fn check_registry(&mut self, at: &str) -> R {
+        if !self.sc.want_any("C04,C10") {
+            return Ok(());
+        }
         let snap = reg_snapshot();
         ensure!(snap.double_drops == 0, "C04", "double-drop", "{}: {} component value(s) dropped twice (or garbage dropped)", at, snap.double_drops);
         ensure!(snap.z_underflow == 0, "C04", "double-drop-zst", "{}: zero-sized component dropped more often than created", at);
@@ -783,7 +810,7 @@ impl Sys {
                 Ok(Some(w))
             }
             Op::DropWorld { k: 0, .. } if self.sc.max_faults == 0 => crate::fault::apply_fault(self, op),
-            Op::FaultQuery { .. } | Op::FaultClone { .. } | Op::FaultDestroyDrop { .. } | Op::FaultIterDestroyDrop { .. } | Op::DropWorld { .. } => {
+            Op::FaultQuery { .. } | Op::FaultClone { .. } | Op::FaultDestroyDrop { .. } | Op::FaultIterDestroyDrop { .. } | Op::DropWorld { .. } | Op::FaultCreateInto { .. } => {
                 self.faults_used += 1;
                 crate::fault::apply_fault(self, op)
             }
@@ -804,13 +831,13 @@ impl Sys {
             let expect_ok = len0 < cap0;
             match r {
                 Ok(e) => {
-                    ensure!(expect_ok, "C12", "within-capacity-accepts-when-full", "create_within_capacity succeeded with len {} == capacity {}", len0, cap0);
+                    ensure_soft!(self.sc, expect_ok, "C12", "within-capacity-accepts-when-full", "create_within_capacity succeeded with len {} == capacity {}", len0, cap0);
                     self.c.within_ok += 1;
                     Some(e)
                 }
                 Err(row) => {
-                    ensure!(!expect_ok, "C12", "within-capacity-refuses-with-room", "create_within_capacity failed with len {} < capacity {}", len0, cap0);
-                    ensure!(row.dig == A::expect(uid, &vals), "C12", "within-capacity-returns-argument", "create_within_capacity did not hand back the components it was given (uid {})", uid);
+                    ensure_soft!(self.sc, !expect_ok, "C12", "within-capacity-refuses-with-room", "create_within_capacity failed with len {} < capacity {}", len0, cap0);
+                    ensure_soft!(self.sc, row.dig == A::expect(uid, &vals), "C12", "within-capacity-returns-argument", "create_within_capacity did not hand back the components it was given (uid {})", uid);
                     self.c.within_err += 1;
                     None
                 }
@@ -821,9 +848,9 @@ impl Sys {
 
         let (len1, cap1, empty1) = A::len_cap(self.world(w));
         let m = &mut self.models[w];
-        ensure!(cap1 >= cap0, "C12", "capacity-decreased", "capacity of {} went from {} to {}", A::NAME, cap0, cap1);
+        ensure_soft!(self.sc, cap1 >= cap0, "C12", "capacity-decreased", "capacity of {} went from {} to {}", A::NAME, cap0, cap1);
         if within || len0 < cap0 {
-            ensure!(cap1 == cap0, "C12", "capacity-changed-without-need", "capacity of {} changed from {} to {} although len {} < capacity", A::NAME, cap0, cap1, len0);
+            ensure_soft!(self.sc, cap1 == cap0, "C12", "capacity-changed-without-need", "capacity of {} changed from {} to {} although len {} < capacity", A::NAME, cap0, cap1, len0);
         }
         if cap1 != cap0 {
             self.c.grows += 1;
@@ -837,7 +864,7 @@ impl Sys {
             ensure!(!m.issued(bits), "C08,C01", "handle-reissued", "create returned {:?} whose bits {:?} were issued before in this world (every stale copy of that handle now designates the new entity)", e, bits);
             ensure!(e.archetype_id() == A::ARCHETYPE_ID && any.archetype_id() == A::ARCHETYPE_ID && (bits.0 & 0xff) as u8 == A::ARCHETYPE_ID,
                 "C14", "archetype-id-of-created-handle", "handle {:?} created by {} does not carry ARCHETYPE_ID {}", any, A::NAME, A::ARCHETYPE_ID);
-            ensure!(len1 == len0 + 1 && !empty1, "C12", "len-after-create", "len went from {} to {} on create", len0, len1);
+            ensure_soft!(self.sc, len1 == len0 + 1 && !empty1, "C12", "len-after-create", "len went from {} to {} on create", len0, len1);
             m.live.insert(bits, MEnt { arch: a as u8, uid, vals, any });
             m.order[a].push(bits);
             m.creations[a] += 1;
@@ -851,7 +878,7 @@ impl Sys {
                 self.c.max_generation_delta = self.c.max_generation_delta.max(bits.1.wrapping_sub(base));
             }
         } else {
-            ensure!(len1 == len0, "C12", "len-after-failed-create", "len changed from {} to {} on a failed create_within_capacity", len0, len1);
+            ensure_soft!(self.sc, len1 == len0, "C12", "len-after-failed-create", "len changed from {} to {} on a failed create_within_capacity", len0, len1);
         }
         Ok(())
     }
@@ -904,7 +931,7 @@ impl Sys {
                 }
             }
             Ok(r) => {
-                if let Some(expected) = due {
+                if let (Some(expected), true) = (due, self.sc.want_any("C08,C10")) {
                     return vio!("C08", "overflow-did-not-panic", "destroy of {:?} returned although a counter is at its maximum ({}); default configuration must panic", ent.any, expected);
                 }
                 let r = match r {
@@ -912,14 +939,14 @@ impl Sys {
                     None => return vio!("C01", "live-handle-rejected:destroy", "destroy({}) via {:?} returned None for live entity uid {}", key.describe(), via, ent.uid),
                 };
                 if let Some(row) = r {
-                    ensure!(row.dig == A::expect(ent.uid, &ent.vals), "C02", "destroy-returned-wrong-values", "destroy({}) returned components that are not those of uid {}: {:x?}", key.describe(), ent.uid, row.dig);
+                    ensure_soft!(self.sc, row.dig == A::expect(ent.uid, &ent.vals), "C02", "destroy-returned-wrong-values", "destroy({}) returned components that are not those of uid {}: {:x?}", key.describe(), ent.uid, row.dig);
                 }
                 if (d0.entities.iter().position(|b| *b == bits).unwrap_or(usize::MAX)) + 1 != d0.len {
                     self.c.swap_removes_nonlast += 1;
                 }
                 self.models[w].remove(bits);
                 let (len1, _, empty1) = A::len_cap(self.world(w));
-                ensure!(len1 + 1 == len0 && empty1 == (len1 == 0), "C12", "len-after-destroy", "len went from {} to {} on destroy", len0, len1);
+                ensure_soft!(self.sc, len1 + 1 == len0 && empty1 == (len1 == 0), "C12", "len-after-destroy", "len went from {} to {} on destroy", len0, len1);
                 Ok(())
             }
         }
@@ -1061,12 +1088,12 @@ impl Sys {
             tracked += m.order[a].len() as i64 * tracked_cols(a);
             z += m.order[a].len() as i64 * zed_cols(a);
         }
-        ensure!((snap1.clones - snap0.clones) as i64 == tracked, "C04", "clone-count", "clone() cloned {} tracked component values, the world owns {}", snap1.clones - snap0.clones, tracked);
-        ensure!(snap1.z_live - snap0.z_live == z, "C04", "clone-count-zst", "clone() cloned {} zero-sized components, the world owns {}", snap1.z_live - snap0.z_live, z);
+        ensure_soft!(self.sc, (snap1.clones - snap0.clones) as i64 == tracked, "C04", "clone-count", "clone() cloned {} tracked component values, the world owns {}", snap1.clones - snap0.clones, tracked);
+        ensure_soft!(self.sc, snap1.z_live - snap0.z_live == z, "C04", "clone-count-zst", "clone() cloned {} zero-sized components, the world owns {}", snap1.z_live - snap0.z_live, z);
         // C13: identical representation at the split.
         let d_src = dump_all(src);
         let d_cl = dump_all(&cl);
-        ensure!(d_src == d_cl, "C13", "clone-representation-differs", "clone differs from the original right after clone(): original {:?} clone {:?}", d_src, d_cl);
+        ensure_soft!(self.sc, d_src == d_cl, "C13", "clone-representation-differs", "clone differs from the original right after clone(): original {:?} clone {:?}", d_src, d_cl);
         self.worlds.push(Some(cl));
         self.models.push(m);
         let nw = self.worlds.len() - 1;
@@ -1078,14 +1105,14 @@ impl Sys {
                     let e = typed::<A>(any);
                     (<A as Arch>::x_to_direct(self.worlds[w].as_ref().unwrap(), Hk::E(e), Via::World), <A as Arch>::x_to_direct(self.worlds[nw].as_ref().unwrap(), Hk::E(e), Via::World))
                 });
-                ensure!(d1.is_some() && d1 == d2, "C13", "clone-direct-handles-differ", "to_direct({:?}) is {:?} on the original and {:?} on the clone", any, d1, d2);
+                ensure_soft!(self.sc, d1.is_some() && d1 == d2, "C13", "clone-direct-handles-differ", "to_direct({:?}) is {:?} on the original and {:?} on the clone", any, d1, d2);
             }
         }
         #[cfg(feature = "events")]
         {
             let e1 = world_events(self.worlds[w].as_ref().unwrap());
             let e2 = world_events(self.worlds[nw].as_ref().unwrap());
-            ensure!(e1 == e2, "C13", "clone-events-differ", "pending events differ after clone: {:?} vs {:?}", e1, e2);
+            ensure_soft!(self.sc, e1 == e2, "C13", "clone-events-differ", "pending events differ after clone: {:?} vs {:?}", e1, e2);
         }
         Ok(())
     }
@@ -1307,9 +1334,9 @@ impl Sys {
                         None => return vio!("C01", "live-handle-rejected:read", "{} with {} rejected live uid {}", READ_PATH_NAMES[rp as usize], KEY_KINDS[kind as usize], ent.uid),
                         Some(row) => {
                             let okd = if row.full { row.dig == exp } else { row.dig[0] == exp[0] };
-                            ensure!(okd, "C02", "read-wrong-values", "{} with {} returned {:x?} for uid {} (expected {:x?}) after {} operations", READ_PATH_NAMES[rp as usize], KEY_KINDS[kind as usize], row.dig, ent.uid, exp, self.step);
+                            ensure_soft!(self.sc, okd, "C02", "read-wrong-values", "{} with {} returned {:x?} for uid {} (expected {:x?}) after {} operations", READ_PATH_NAMES[rp as usize], KEY_KINDS[kind as usize], row.dig, ent.uid, exp, self.step);
                             if let Some(rb) = row.bits {
-                                ensure!(rb == b, "C02", "read-wrong-handle", "{} reported handle {:?} for a lookup of {:?}", READ_PATH_NAMES[rp as usize], rb, b);
+                                ensure_soft!(self.sc, rb == b, "C02", "read-wrong-handle", "{} reported handle {:?} for a lookup of {:?}", READ_PATH_NAMES[rp as usize], rb, b);
                             }
                         }
                     }
